@@ -21,6 +21,7 @@ import (
 	"github.com/tikv/client-go/v2/tikvrpc"
 	"github.com/tikv/client-go/v2/txnkv/txnsnapshot"
 	"github.com/tikv/client-go/v2/verif/ev"
+	"github.com/tikv/client-go/v2/verif/hist"
 	_ "github.com/tikv/client-go/v2/verif/quiet"
 	"github.com/tikv/client-go/v2/verif/sim"
 	"pgregory.net/rapid"
@@ -29,11 +30,6 @@ import (
 var pool = []string{"a", "b", "c", "d", "e", "f", "g", "h"}
 
 const knownReverseFromEnd = "C05/reverse-scan-from-end-of-keyspace"
-
-type writer struct {
-	steps []*sim.Step
-	end   string // commit | rollback | kill (client dies with the txn open) | crash (commit with a crash fault)
-}
 
 type read struct {
 	Kind      string // get | batchget | iter | iterrev
@@ -70,7 +66,7 @@ type tcase struct {
 	nStores   int
 	keys      []string
 	splits    []string
-	writers   []writer
+	writers   []hist.Writer
 	expire    bool
 	asyncBG   bool
 	tsChoice  int // index into the timestamp marks
@@ -83,11 +79,7 @@ type tcase struct {
 func (c *tcase) String() string {
 	var ws []string
 	for _, w := range c.writers {
-		var ss []string
-		for _, s := range w.steps {
-			ss = append(ss, s.String())
-		}
-		ws = append(ws, strings.Join(ss, " ; ")+" => "+w.end)
+		ws = append(ws, w.String())
 	}
 	var rs []string
 	for _, r := range c.reads {
@@ -114,32 +106,7 @@ func gen(t *rapid.T, backend sim.Backend, rec *ev.Recorder) *tcase {
 		c.splits = append(c.splits, k)
 	}
 	nW := rapid.IntRange(3, 7).Draw(t, "nwriters")
-	for i := 0; i < nW; i++ {
-		pess := rapid.Bool().Draw(t, "pessimistic")
-		b := &sim.Step{Txn: i, Op: "begin", Client: 2 + i, Pessimistic: pess}
-		if backend == sim.Uni {
-			switch rapid.IntRange(0, 3).Draw(t, "mode") {
-			case 1:
-				b.Async = true
-			case 2:
-				b.OnePC = true
-			}
-		}
-		w := writer{steps: []*sim.Step{b}}
-		for j := rapid.IntRange(1, 3).Draw(t, "nops"); j > 0; j-- {
-			op := rapid.SampledFrom([]string{"set", "set", "set", "delete"}).Draw(t, "op")
-			w.steps = append(w.steps, &sim.Step{Txn: i, Op: op, Keys: []string{key("k")}, Val: fmt.Sprintf("w%d.%d", i, j), LockFirst: pess})
-		}
-		w.end = rapid.SampledFrom([]string{"commit", "commit", "commit", "crash", "crash", "kill", "rollback"}).Draw(t, "end")
-		switch w.end {
-		case "commit", "rollback":
-			w.steps = append(w.steps, &sim.Step{Txn: i, Op: w.end})
-		case "crash":
-			w.steps = append(w.steps, &sim.Step{Txn: i, Op: "commit", DrainArmed: true, Faults: []sim.FaultSpec{{
-				Type: "", Index: rapid.IntRange(0, 5).Draw(t, "crashidx"), Action: rapid.SampledFrom([]string{"kill", "killAfter"}).Draw(t, "crashmode")}}})
-		}
-		c.writers = append(c.writers, w)
-	}
+	c.writers = hist.Gen(t, backend, c.keys, nW, 2)
 	c.expire = rapid.IntRange(0, 3).Draw(t, "expire") != 0
 	c.asyncBG = rapid.Bool().Draw(t, "asyncbatchget")
 	c.tsChoice = rapid.IntRange(0, nW).Draw(t, "ts")
@@ -389,26 +356,10 @@ func run(c *tcase) (o outcome) {
 				failMsg = fmt.Sprintf("panic: %v\n%s", r, debug.Stack())
 			}
 		}()
-		marks := []uint64{cl.MaxIssued() + 1}
-		if ts, err := cl.Clients[0].Store.CurrentTimestamp("global"); err == nil {
-			marks[0] = ts
-		}
-		for _, wr := range c.writers {
-			for _, s := range wr.steps {
-				w.Exec(s)
-			}
-			if wr.end == "kill" || wr.end == "crash" {
-				cl.Clients[wr.steps[0].Client].Net.Kill()
-				if t := w.Txns[wr.steps[0].Txn]; t != nil && t.Ended == "" {
-					t.Ended = "killed"
-				}
-			}
-			ts, err := cl.Clients[0].Store.CurrentTimestamp("global")
-			if err != nil {
-				failMsg = "tso: " + err.Error()
-				return
-			}
-			marks = append(marks, ts)
+		marks, err := hist.Build(w, c.writers, 0)
+		if err != nil {
+			failMsg = "tso: " + err.Error()
+			return
 		}
 		cl.Drain(2*time.Millisecond, 2*time.Second)
 		reader := cl.Clients[0]
